@@ -116,7 +116,21 @@ func (f *mscFam) Exec(r *hx.Run, op []string) string {
 	case "genesis":
 		return f.mscGenesis(r, op)
 	case "hdr":
-		return f.mscHdr(r, op)
+		if len(op) != 10 {
+			return "bad-op"
+		}
+		return f.mscHdr(r, op, op[1], strings.Join(op, " "))
+	case "twin":
+		if len(op) != 4 {
+			return "bad-op"
+		}
+		od, ok := f.descr[op[2]]
+		ot := strings.Fields(od)
+		if !ok || len(ot) != 10 || ot[0] != "hdr" {
+			return "bad-op"
+		}
+		ot[1], ot[5] = op[1], op[3]
+		return f.mscHdr(r, ot, op[2], strings.Join(op, " "))
 	case "state":
 		return f.execState(r)
 	}
@@ -182,6 +196,20 @@ func (f *mscFam) mscBuild(id string, parent ecommon.Hash, num uint64, cbTok, sea
 	return h, sealBy, vote, true
 }
 
+// mscRecover: the signer the harness itself recovers from the header's own seal
+func mscRecover(h *etypes.Header) (a ecommon.Address, ok bool) {
+	if len(h.Extra) < 65 {
+		return a, false
+	}
+	sh := clique.SealHash(h)
+	pub, err := ecrypto.Ecrecover(sh[:], h.Extra[len(h.Extra)-65:])
+	if err != nil || len(pub) != 65 {
+		return a, false
+	}
+	copy(a[:], ecrypto.Keccak256(pub[1:])[12:])
+	return a, true
+}
+
 type mscNodeInfo struct {
 	auth   bool             // nonce = authorize
 	vote   *ecommon.Address // coinbase when non-zero
@@ -229,8 +257,9 @@ func (f *mscFam) mscGenesis(r *hx.Run, op []string) string {
 		f.byHash[hash] = id
 		f.genesis = id
 		info := &mscNodeInfo{}
-		if sealBy >= 0 {
-			info.signer = posaKeys[sealBy].addr
+		if a, ok := mscRecover(h); ok {
+			info.signer = a
+			n.rec, n.recOK = a, true
 		}
 		f.info[n] = info
 		if !f.rawStored(hash) {
@@ -344,18 +373,14 @@ func (f *mscFam) mscOracle(r *hx.Run, n *posaNode, parentStoredBefore bool) {
 	if len(n.extra) < 97 || n.mixBad || n.uncBad || (!checkpoint && len(n.extra) != 97) || (checkpoint && (len(n.extra) == 97 || (len(n.extra)-97)%20 != 0)) {
 		r.Viol("C29:msc:malformed-stored", fmt.Sprintf("header %s (number %d, epoch %d) stored with extra length %d, mixBad=%v uncleBad=%v", n.id, n.num, f.epoch, len(n.extra), n.mixBad, n.uncBad))
 	}
-	if n.sealBy < 0 {
-		if n.sealW {
-			r.Viol("C29:msc:stored-with-signer-outside-set", fmt.Sprintf("header %s (number %d) stored, its seal (made over another hash) recovers to an address that is not an authorized signer", n.id, n.num))
-		} else {
-			r.Viol("C29:msc:stored-with-bad-seal", fmt.Sprintf("header %s stored although its seal is not a recoverable signature", n.id))
-		}
+	if !n.recOK {
+		r.Viol("C29:msc:stored-with-bad-seal", fmt.Sprintf("header %s stored although its seal is not a recoverable signature", n.id))
 		return
 	}
-	signer := posaKeys[n.sealBy].addr
+	signer := n.rec
 	set := f.mscSnapshot(anc)
 	if !set[signer] {
-		r.Viol("C29:msc:stored-with-signer-outside-set", fmt.Sprintf("header %s (number %d) stored, sealed by key %d which is not an authorized signer (%d signers in effect)", n.id, n.num, n.sealBy, len(set)))
+		r.Viol("C29:msc:stored-with-signer-outside-set", fmt.Sprintf("header %s (number %d) stored, its seal recovers to key %d which is not an authorized signer (%d signers in effect)", n.id, n.num, idxOfAddr(signer), len(set)))
 		return
 	}
 	for j := 0; j < len(set)/2 && j < len(anc); j++ {
@@ -384,10 +409,7 @@ func (f *mscFam) mscOracle(r *hx.Run, n *posaNode, parentStoredBefore bool) {
 	}
 }
 
-func (f *mscFam) mscHdr(r *hx.Run, op []string) string {
-	if len(op) != 10 {
-		return "bad-op"
-	}
+func (f *mscFam) mscHdr(r *hx.Run, op []string, rootLabel, desc string) string {
 	id, parent := op[1], op[2]
 	num, e1 := strconv.ParseUint(op[3], 10, 32)
 	diff, e2 := strconv.ParseUint(op[6], 10, 32)
@@ -395,12 +417,11 @@ func (f *mscFam) mscHdr(r *hx.Run, op []string) string {
 	if e1 != nil || e2 != nil || e3 != nil {
 		return "bad-op"
 	}
-	desc := strings.Join(op, " ")
 	if d, seen := f.descr[id]; seen && d != desc {
 		return "bad-op"
 	}
 	phash := f.hashOf(parent)
-	h, sealBy, vote, ok := f.mscBuild(id, phash, num, op[4], op[5], diff, op[7], tm, op[9])
+	h, sealBy, vote, ok := f.mscBuild(rootLabel, phash, num, op[4], op[5], diff, op[7], tm, op[9])
 	if !ok {
 		return "bad-op"
 	}
@@ -416,8 +437,9 @@ func (f *mscFam) mscHdr(r *hx.Run, op []string) string {
 		f.nodes[id] = n
 		f.byHash[hash] = id
 		info := &mscNodeInfo{auth: strings.Contains(op[9], "auth"), vote: vote}
-		if sealBy >= 0 {
-			info.signer = posaKeys[sealBy].addr
+		if a, ok := mscRecover(h); ok {
+			info.signer = a
+			n.rec, n.recOK = a, true
 		}
 		f.info[n] = info
 	}
